@@ -313,6 +313,17 @@ pub fn run_capacity(r: &mut Report, analyzer: &str, capacity: usize, extra: usiz
                 ip
             };
             feed(&mk(SYN, 1000, vec![], [vec![2, 4, 5, 0xb4], crate::props::c19::ts_opts(c as u32 + 1, 0)].concat()));
+            // the server side of the connection too (its own timestamp entry, its own direction of every flow table)
+            let mk_s = |flags: u8, seq: u32, payload: Vec<u8>, opts: Vec<u8>| {
+                let mut ip = pkt::build(&Spec { src: 2, sport: 443, dst: 1, dport: 1024 + (c % 60000) as u16, flags, seq, ack: 1001, payload, opts, ..Spec::default() });
+                ip[17] = hi;
+                ip[18] = lo;
+                ip
+            };
+            feed(&mk_s(SYN | ACK, 5000, vec![], [vec![2, 4, 5, 0xb4], crate::props::c19::ts_opts(c as u32 + 77, 1)].concat()));
+            // (no timestamp on the data segment: a second timestamped segment would rewrite the entry through the evicting
+            // path and hide an insertion that does not evict)
+            feed(&mk_s(ACK | PSH, 5001, payload("http-head-never-ends", 0), vec![]));
             feed(&mk(ACK | PSH, 1001, payload("tls-record-declaring-65535-bytes", 0), vec![]));
             feed(&mk(ACK | PSH, 1001, payload("http-head-never-ends", 0), vec![]));
             worst = worst.max(counters().0 - base);
@@ -322,7 +333,7 @@ pub fn run_capacity(r: &mut Report, analyzer: &str, capacity: usize, extra: usiz
         }
         (at_capacity, worst)
     });
-    r.exec((capacity + extra) as u64 * 3);
+    r.exec((capacity + extra) as u64 * 5);
     match res {
         Err(p) => r.dev(format!("C11/{analyzer}/panic"), "panic", || json!({"analyzer": analyzer, "capacity": capacity, "detail": p})),
         Ok((at_capacity, worst)) => {
@@ -401,14 +412,15 @@ pub fn run(thorough: bool) -> Outcome {
     });
     let mut total = rep;
     for an in ["tcp", "http", "tls"] {
-        for (cap, extra) in [(1usize, 50usize), (8, 100), (64, 256), (1000, if thorough { 3000 } else { 1000 })] {
+        // (the long runs make a leak of ~100 bytes per connection visible above the 256 KiB slack)
+        for (cap, extra) in [(1usize, 50usize), (8, 100), (64, 256), (1000, if thorough { 3000 } else { 1000 }), (8, if thorough { 200_000 } else { 30_000 })] {
             run_capacity(&mut total, an, cap, extra);
         }
     }
     run_capacity_routes(&mut total);
     Outcome {
         report: total,
-        rule: "deterministic chains: SYN, SYN+ACK, then N segments (1400, 64, 1 or 16000 bytes each, same byte stream; jumbo chains stop at 4096 segments) of 16 never-fingerprinting traffic kinds (incl. many complete small records / frames / lines per segment) x both directions x 4 analyzers; after EVERY packet the bytes retained since the connection started and the bytes allocated while handling the packet are recorded (counting allocator, per thread): hard limits 8 MiB / 16 MiB at every step; above the soft limits (256 KiB retained, 1 MiB + 64 x segment size per packet) the second half of the chain must not exceed the first (retained + 64 KiB, per packet x 1.25 + 64 KiB); capacity families: capacity + k connections (k >= capacity) for capacities 1, 8, 64, 1000 must not retain more than 1.25 x what `capacity` connections retain + 256 KiB; capacity routes: 4 x capacity connections opened before any sends its request, through analyze_pcap of HuginnNetHttp::new, with_config without init_pool (1, 2, 4, 16 workers) and the unified analyzer for capacities 1, 2, 8: at most `capacity` requests can be reported, and all HTTP routes agree; distinct = distinct (chain, peak) outcomes".into(),
+        rule: "deterministic chains: SYN, SYN+ACK, then N segments (1400, 64, 1 or 16000 bytes each, same byte stream; jumbo chains stop at 4096 segments) of 16 never-fingerprinting traffic kinds (incl. many complete small records / frames / lines per segment) x both directions x 4 analyzers; after EVERY packet the bytes retained since the connection started and the bytes allocated while handling the packet are recorded (counting allocator, per thread): hard limits 8 MiB / 16 MiB at every step; above the soft limits (256 KiB retained, 1 MiB + 64 x segment size per packet) the second half of the chain must not exceed the first (retained + 64 KiB, per packet x 1.25 + 64 KiB); capacity families: capacity + k connections (k >= capacity) for capacities 1, 8, 64, 1000 (and 30 000 / 200 000 connections on capacity 8; every connection with timestamped segments of both sides) must not retain more than 1.25 x what `capacity` connections retain + 256 KiB; capacity routes: 4 x capacity connections opened before any sends its request, through analyze_pcap of HuginnNetHttp::new, with_config without init_pool (1, 2, 4, 16 workers) and the unified analyzer for capacities 1, 2, 8: at most `capacity` requests can be reported, and all HTTP routes agree; distinct = distinct (chain, peak) outcomes".into(),
         exhaustive: true,
         bounds: json!({"segments_per_chain": n, "segment_bytes": SIZES, "chains": jobs.len(), "retained_limit": RETAINED_LIMIT, "per_packet_limit": PER_PACKET_LIMIT}),
     }
